@@ -71,6 +71,16 @@ SIGS = {
     "remove:accumulation-mismatch": "Remove that merges siblings stores the accumulation of the left node computed before the merge",
 }
 ORIGIN_DEFECTS = ("separator-without-node", "accumulation-mismatch")
+# VERIF_C16_KEEPEMPTY=1: judge a tree patched with docs/fix_c16_4.diff, where emptied nodes legally stay
+KEEPEMPTY = bool(os.environ.get("VERIF_C16_KEEPEMPTY"))
+TRACE_CFG_KEEPEMPTY = """SPECIFICATION TraceSpec
+CONSTANTS
+  M = 2
+  Fix <- TKeepEmpty
+CONSTRAINT Mark
+POSTCONDITION Accepted
+CHECK_DEADLOCK FALSE
+"""
 
 
 def mc_cfg(m, fix, keys, ops, tail, vals="1", maxabs=1, depth=80, beyond="TRUE", total="FALSE"):
@@ -122,6 +132,7 @@ def run_mc(ctx, cov):
         jobs.append(("repaired-allops m=%d %s" % (m, "Keys5" if q else "Keys6"),
                      mc_cfg(m, "AllFixes", "Keys5" if q else "Keys6", ALLOPS, "INVARIANTS Refines Structure",
                             total="TRUE")))
+    jobs.append(("asis-norem m=1 Keys4", mc_cfg(1, "NoFix", "Keys4", NOREM, "INVARIANTS Refines Structure")))
     if not q:
         jobs.append(("asis-norem m=2 Keys5 vals{1,2}", mc_cfg(2, "NoFix", "Keys5", NOREM, "INVARIANTS Refines Structure",
                                                                vals="1, 2", maxabs=2)))
@@ -159,11 +170,13 @@ def norm_replay_dev(d, gen_name):
 
 def run_replay(ctx, binary, cov, devs):
     q = ctx.quick
+    # fan-out 1 is degenerate (the height grows without bound under removals): exercised without Remove only
     if q:
-        gens = [(2, "Keys5", NODEC, 2), (3, "Keys6", NODEC, 1), (4, "Keys5", ALLOPS, 1)]
+        gens = [(2, "Keys5", NODEC, 2), (3, "Keys6", NODEC, 1), (4, "Keys5", ALLOPS, 1), (1, "Keys4", NOREM, 1)]
     else:
         gens = [(2, "Keys6", NODEC, 1), (2, "Keys5", ALLOPS, 2), (3, "Keys6", ALLOPS, 1), (3, "Keys7", NODEC, 1),
-                (4, "Keys6", ALLOPS, 1), (4, "Keys7", NODEC, 1), (5, "Keys7", NODEC, 1), (6, "Keys7", NODEC, 1)]
+                (4, "Keys6", ALLOPS, 1), (4, "Keys7", NODEC, 1), (5, "Keys7", NODEC, 1), (6, "Keys7", NODEC, 1),
+                (1, "Keys5", NOREM, 1)]
     tot = collections.Counter()
     states = trans = 0
     samples = []
@@ -171,7 +184,8 @@ def run_replay(ctx, binary, cov, devs):
     for m, ks, ops, maxabs in gens:
         name = "m=%d %s ops={%s} maxabs=%d" % (m, ks, ops.replace('"', ''), maxabs)
         r = vlib.tlc("MCSumTree.tla", "gen.cfg", workers=8, timeout=3000, heap="12g", tag="C16-gen", keep=True,
-                     cfg_text=mc_cfg(m, "NoFix", ks, ops, "ACTION_CONSTRAINT EmitEdge", maxabs=maxabs, beyond="FALSE"))
+                     cfg_text=mc_cfg(m, "AllFixes" if KEEPEMPTY else "NoFix", ks, ops, "ACTION_CONSTRAINT EmitEdge",
+                                     maxabs=maxabs, beyond="FALSE"))
         vlib.tlc_must_pass(r, "MCSumTree generator " + name)
         d = os.path.dirname(r.out)
         body, gen = os.path.join(d, "gen.body"), os.path.join(d, "gen.jsonl")
@@ -255,7 +269,7 @@ def validate_monitor(ctx, trace, what, parallel=None):
     def one(ch):
         p, first, n = ch
         return ch, vlib.tlc("TraceSumTree.tla", "TraceSumTree.cfg", workers=1, timeout=2400, env={"TRACE_FILE": p},
-                            heap="3g", tag="C16-trace")
+                            heap="3g", tag="C16-trace", cfg_text=TRACE_CFG_KEEPEMPTY if KEEPEMPTY else None)
 
     with concurrent.futures.ThreadPoolExecutor(max_workers=parallel) as ex:
         results = list(ex.map(one, chunks))
@@ -273,34 +287,64 @@ def validate_monitor(ctx, trace, what, parallel=None):
         ds = parse_devs(r.prints)
         if ds:
             lines = open(p).read().split("\n")
+            cache = {}
+
+            def ev_at(i):          # parsed line i (1-based), parsed at most once
+                if i not in cache:
+                    cache[i] = json.loads(lines[i - 1])
+                return cache[i]
+
+            hist_start = {}
+            cur = 0
+            for i, ln in enumerate(lines):
+                if ln.startswith("{") and '"e":"cfg"' in ln[:200] + ln[-200:]:
+                    cur = i + 1
+                hist_start[i + 1] = cur
             seen = set()
+            classes = {}
             for d in ds:
                 key = (d["line"], d["kind"], d["qi"])
                 if key in seen:
                     continue
                 seen.add(key)
-                ev = json.loads(lines[d["line"] - 1])
-                hstart = d["line"] - 1
-                while hstart > 0 and '"e":"cfg"' not in lines[hstart]:
-                    hstart -= 1
-                cfg = json.loads(lines[hstart])
+                hstart = hist_start[d["line"]]
                 nd = {"leg": "trace", "kind": d["kind"], "q": d["q"], "shape": d["shape"], "gap": d["gap"],
                       "noleaves": d["noleaves"], "valempty": d["valempty"],
-                      "origin": (d["origin"][0] if d["origin"] else None), "m": cfg.get("m"),
-                      "where": "%s line %d (history %s)" % (what, first + d["line"] - 1, cfg.get("h")),
-                      "len": d["line"] - hstart, "want": None, "got": None}
+                      "origin": (d["origin"][0] if d["origin"] else None),
+                      "len": d["line"] - hstart, "want": None, "got": None, "count": 1, "_line": d["line"], "_qi": d["qi"]}
+                ev = ev_at(d["line"])
                 if d["qi"]:
                     qr = ev["q"][d["qi"] - 1]
-                    nd["query"] = {k: qr[k] for k in ("q", "k", "s", "e")}
                     nd["got"] = qr["p"] if not qr["ok"] else (qr["sp"] if qr["q"] == "split" else
                                                               qr["it"] if qr["q"] in ("iter", "riter") else qr["r"])
                 elif d["kind"] == "mutation-panic":
                     nd["got"] = ev.get("p")
-                elif d["kind"] in ("state", "order"):
+                org = nd["origin"]
+                ck = (nd["kind"], nd["q"], nd["shape"], nd["gap"], nd["noleaves"],
+                      (org["a"], org["defect"]) if org else None,
+                      nd["got"] if "panic" in nd["kind"] else (nd["got"] == nd["valempty"] if nd["kind"] == "query" and
+                                                               isinstance(nd["got"], int) else None))
+                if ck in classes:
+                    old = classes[ck]
+                    n = old["count"] + 1
+                    if nd["len"] < old["len"]:
+                        classes[ck] = old = nd
+                    old["count"] = n
+                else:
+                    classes[ck] = nd
+            for nd in classes.values():
+                line, qi = nd.pop("_line"), nd.pop("_qi")
+                hstart = hist_start[line]
+                cfg = ev_at(hstart)
+                ev = ev_at(line)
+                nd["m"] = cfg.get("m")
+                nd["where"] = "%s line %d (history %s)" % (what, first + line - 1, cfg.get("h"))
+                if qi:
+                    nd["query"] = {k: v for k, v in ev["q"][qi - 1].items() if k in ("q", "k", "s", "e")}
+                elif nd["kind"] in ("state", "order"):
                     nd["got"] = ev.get("leaves")
                 # the op list of the history up to this line makes the deviation re-executable
-                nd["ops"] = [{"a": e["a"], "k": e["k"], "v": e["v"]} for e in
-                             (json.loads(x) for x in lines[hstart + 1:d["line"]])]
+                nd["ops"] = [{"a": e["a"], "k": e["k"], "v": e["v"]} for e in (ev_at(i) for i in range(hstart + 1, line + 1))]
                 devs.append(nd)
     for p, _, _ in chunks:
         try:
@@ -311,7 +355,7 @@ def validate_monitor(ctx, trace, what, parallel=None):
 
 
 def run_trace(ctx, binary, cov, devs):
-    nh, nops = (48, 120) if ctx.quick else (480, 400)
+    nh, nops = (36, 100) if ctx.quick else (480, 400)
     ctx.params = {"histories": nh, "ops": nops}
     d = vlib.scratch("C16-rec")
     trace = os.path.join(d, "sumtree.ndjson")
